@@ -2,7 +2,8 @@
    overlapping targets are rejected whatever the declaration order; run-time-only type
    checks give an error, never a panic.  Only statements, each closed by [exact]. *)
 From Coq Require Import Permutation.
-From Eino Require Import Base.Util Base.FMUniverse Model.FieldMap Proofs.FieldMapOverlap.
+From Eino Require Import Base.Util Base.FMUniverse Model.FieldMap Proofs.FieldMapOverlap
+  Proofs.FieldMapAssign Proofs.FieldMapComm.
 
 (* ---------------------------------------------------------------- overlap detection *)
 
@@ -43,3 +44,40 @@ Proof.
   split; [exact overlap_v0_order_dependent | split; [exact overlap_v0_sibling_reset | exact (proj1 overlap_v0_whole_ignored)]].
 Qed.
 Print Assumptions overlap_iff_v0_refuted.
+
+(* ---------------------------------------------------------------- target assignment *)
+
+(* the struct environment of the harness (Leaf = 0, Inner = 1, Outer = 2), used by the
+   non-vacuity examples *)
+Definition ex_env : senv :=
+  [(0, [(0, (true, TInt)); (1, (true, TStr))]);
+   (1, [(2, (true, TInt)); (3, (true, TStr)); (4, (true, TAny)); (5, (true, TStruct 0));
+        (6, (true, TPtr (TStruct 0))); (7, (true, TMap true TInt)); (8, (true, TMap true (TStruct 0)));
+        (9, (false, TInt))]);
+   (2, [(10, (true, TStruct 1)); (11, (true, TPtr (TStruct 1))); (12, (true, TPtr (TPtr (TStruct 1))));
+        (13, (true, TAny)); (14, (true, TInt)); (15, (true, TStr)); (16, (true, TMap true TAny));
+        (17, (true, TMap true TStr)); (18, (true, TMap true (TStruct 1)));
+        (19, (true, TMap true (TPtr (TStruct 1)))); (20, (true, TMap false TStr))])]%N.
+
+(* convertTo iterates over a Go map (random order): for a set of target paths without
+   overlap EVERY iteration order gives the same outcome (same value, or the same failure),
+   whatever the target type, the paths and the values are. *)
+Theorem assign_order_independent :
+  forall (env : senv) (T : ty) (m m' : fmap),
+    Permutation m m' -> no_conflict (keys m) -> convert_to env T m = convert_to env T m'.
+Proof. exact convert_to_perm. Qed.
+Print Assumptions assign_order_independent.
+
+Example assign_order_independent_nonvacuous :
+  let m := [([11; 5; 0], VInt 6); ([11; 2], VInt 5); ([19; 100; 3], VStr "y"); ([13; 101; 102], VNil);
+            ([18; 100; 5; 1], VStr "z")]%N in
+  no_conflict (keys m) /\
+  convert_to ex_env (TStruct 2) m = convert_to ex_env (TStruct 2) (rev m) /\
+  is_ok (convert_to ex_env (TStruct 2) m) = true.
+Proof. vm_compute. repeat split; repeat constructor. Qed.
+
+(* ... and with overlapping targets the order does matter (which is why they are rejected) *)
+Example assign_order_matters_with_overlap :
+  let m := [([10; 2], VInt 5); ([10], VStruct 1 [])]%N in
+  convert_to ex_env (TStruct 2) m <> convert_to ex_env (TStruct 2) (rev m).
+Proof. vm_compute. discriminate. Qed.
